@@ -259,9 +259,33 @@ impl FaultRun {
     }
 
     /// After the fault: look at everything, do a few ops, drop everything. All with the fuse off.
-    fn aftermath<G: ParRig>(&mut self, sc: Option<Scene<G>>, extra: Vec<W<G>>, rng: &mut Rng) -> Result<(), String> {
+    fn aftermath<G: ParRig>(&mut self, sc: Option<Scene<G>>, extra: Vec<W<G>>, rng: &mut Rng, target: Option<(usize, u64)>) -> Result<(), String> {
         let mut worlds: Vec<W<G>> = extra;
-        if let Some(Scene { src, other }) = sc {
+        if let Some(Scene { mut src, other }) = sc {
+            // first of all: keep using the entity the faulted operation was working on, through
+            // its identifier (a stale location would surface here)
+            if let Some(t) = target {
+                let r = catch_unwind(AssertUnwindSafe(|| {
+                    let id = ident(t);
+                    let _ = G::entry_snapshot(&mut src, id);
+                    for k in 0..G::N {
+                        G::entry_add(&mut src, id, k, 0x6200_0000 + k as u64);
+                    }
+                    let _ = G::entry_snapshot(&mut src, id);
+                    if G::N > 0 {
+                        G::entry_remove(&mut src, id, 0);
+                    }
+                    src.remove(id);
+                }));
+                self.stats.followup_ops += 4;
+                if let Err(e) = r {
+                    worlds.push(src);
+                    worlds.push(other);
+                    // leak: the state is unknown
+                    std::mem::forget(worlds);
+                    return Err(format!("using the faulted entity's identifier afterwards panicked: {}", seq::panic_msg(&e)));
+                }
+            }
             worlds.push(src);
             worlds.push(other);
         }
@@ -325,7 +349,11 @@ impl FaultRun {
         let cbname = |e: &sink::Event| e.kind;
         // events during the faulted op itself
         let mut events = if sink::count() != sink0 { sink::drain() } else { Vec::new() };
-        let after = self.aftermath::<G>(sc, extra, rng);
+        let target = match op {
+            FaultOp::Remove { id } | FaultOp::EntryOverwrite { id, .. } | FaultOp::EntryRemove { id, .. } => Some(*id),
+            _ => None,
+        };
+        let after = self.aftermath::<G>(sc, extra, rng, target);
         if sink::count() != sink0 {
             events.extend(sink::drain());
         }
